@@ -8,6 +8,18 @@ COMMON_ASSUME = [
 ]
 
 PROPS = {
+    "C18": {
+        "units": [{"pkg": "./mainpkg", "run": "^TestC18", "shards": 4, "shards_thorough": 8, "timeout": 1200}],
+        "rule": ("rapid-generated shutdown scenarios against the exported listener functions: any non-empty subset of {http, tcp, tcp+sni, grpc, https+tcp+sni} registered through ListenAndServeHTTP/TCP/GRPC/HTTPSTCPSNI "
+                 "on free loopback ports (the gRPC one with main.go's newGrpcProxy options), wait W in [200 ms, 1.5 s], 0-3 pieces of in-flight work per listener (HTTP and HTTPS requests, TCP and SNI tunnels incl. SNI "
+                 "tunnels on the https+tcp+sni listener, gRPC unary calls and streams) whose upstream takes d in [0, 0.5 W] or [2 W, 4 W] or never finishes, and a shutdown moment drawn relative to the start of the work. "
+                 "Oracle: (1) a connect attempted min(W/2, 300 ms) after proxy.Shutdown(W) was called is refused on every listener; (2) every piece of work with d <= 0.5 W completes normally (full HTTP response, "
+                 "tunnel reply, OK status); (3) proxy.Shutdown(W) returns within W + 2 s whatever is still open. Non-trivial = mix with >=2 listener kinds and at least one never-ending piece of work."),
+        "technique": "rapid-generated listener mixes and in-flight workloads on real sockets with one-sided timing bounds",
+        "level_text": "Generated mixes of real listeners with real in-flight requests, tunnels and gRPC calls are shut down through the production entry point; completion of short work, refusal of new connections and the bound on shutdown time are asserted with wide slack. Exploration only.",
+        "level_note": "Durations are drawn away from the wait (<= 0.5 W or >= 2 W) so that scheduling noise cannot flip a verdict; slack on the bound is 2 s; the signal handler and deregistration in main() are not part of this check.",
+        "assumptions": COMMON_ASSUME,
+    },
     "C16": {
         "units": [{"pkg": "./mainpkg", "run": "^TestC16", "shards": 4, "shards_thorough": 8, "timeout": 1200}],
         "rule": ("in-process chain gRPC client -> grpc.Server built from main.go's newGrpcProxy options -> 3 scripted grpc-go backends (UnknownServiceHandler; client and backends use a raw-bytes codec). rapid-generated "
